@@ -5,7 +5,7 @@ import "verif/internal/eng"
 func init() {
 	register(&Property{
 		ID: "C01",
-		Explanation: "Decides the structural core of the round trip, not equality of restored bytes and attributes: (nodetype-exhaustive) fs.nodeTypeFromFileInfo yields file, dir, symlink, dev, chardev, fifo and socket (plus irregular/invalid, no type unknown to this check), and both fs.NodeCreateAt (restore) and fs.nodeFillExtendedStat (backup) have their own case for each of the seven and return an error when no case matches (specialised evaluation with every type comparison false); (node-field-flow) every serialised field of data.Node (enumerated from the struct; reasons recorded for ChangeTime, Error, Path, LinkTargetRaw) is stored by the backup side (fs.nodeFromFileInfo and its callees in package fs, package archiver) and read by the restore side (fs.NodeCreateAt, fs.NodeRestoreMetadata and their callees in package fs, package restorer) — a recorded attribute nobody restores, or a restored attribute nobody records, is a violation; (restore-passes) Restorer.RestoreTo writes file content only after the first traversal succeeded and starts the second traversal only after restoreFiles returned nil; restoreNodeMetadataTo is called by the second traversal's visitors only and files are scheduled by the first only, so no content is written after metadata was applied; (metadata-order) fs.nodeRestoreMetadata changes the owner before it writes extended attributes and before chmod (a later chown would drop security.capability and clear setuid/setgid), writes extended attributes and timestamps before chmod (a read-only mode would block them), and no step is skipped because an earlier one failed — added after a seeded change that moved lchown behind the xattrs; (content-order, C17) chunk IDs are recorded in read order; (marshal-siblings, C41) names and link targets survive encoding. Not decided: equality of content, modes, times, ownership, xattrs and hard-link grouping after a real round trip on every platform, concurrency settings and pack sizes.",
+		Explanation: "Decides the structural core of the round trip, not equality of restored bytes and attributes: (nodetype-exhaustive) fs.nodeTypeFromFileInfo yields file, dir, symlink, dev, chardev, fifo and socket (plus irregular/invalid, no type unknown to this check), and both fs.NodeCreateAt (restore) and fs.nodeFillExtendedStat (backup) have their own case for each of the seven and return an error when no case matches (specialised evaluation with every type comparison false); (node-field-flow) every serialised field of data.Node (enumerated from the struct; reasons recorded for ChangeTime, Error, Path, LinkTargetRaw) is stored by the backup side (fs.nodeFromFileInfo and its callees in package fs, package archiver) and read by the restore side (fs.NodeCreateAt, fs.NodeRestoreMetadata and their callees in package fs, package restorer) — a recorded attribute nobody restores, or a restored attribute nobody records, is a violation; (restore-passes) Restorer.RestoreTo writes file content only after the first traversal succeeded and starts the second traversal only after restoreFiles returned nil; restoreNodeMetadataTo is called by the second traversal's visitors only and files are scheduled by the first only, so no content is written after metadata was applied; (metadata-order) fs.nodeRestoreMetadata changes the owner before it writes extended attributes and before chmod (a later chown would drop security.capability and clear setuid/setgid), writes extended attributes and timestamps before chmod (a read-only mode would block them), and no step is skipped because an earlier one failed — added after a seeded change that moved lchown behind the xattrs; (xattrs-exact) where attributes are restored by name, every successful return of nodeRestoreExtendedAttributes lies behind the listing of the target's attributes, and an attribute is removed only if it is not among those recorded — also for nodes that record none (added after a seeded change that returned early for them, keeping inherited ACL attributes); (content-order, C17) chunk IDs are recorded in read order; (marshal-siblings, C41) names and link targets survive encoding. Not decided: equality of content, modes, times, ownership, xattrs and hard-link grouping after a real round trip on every platform, concurrency settings and pack sizes.",
 		Assumptions: commonAssumptions,
 		Technique:   "static analysis: case coverage of the node-type switches + producer/consumer field coverage over call closures + CFG ordering cuts (go/ssa, go/types)",
 		AllConfigs:  true,
@@ -16,8 +16,13 @@ func init() {
 			ruleMetadataOrder(c)
 			ruleContentOrder(c)
 			ruleMarshalSiblings(c)
+			ruleXattrsExact(c)
+			ruleTimestampRange(c)
+			ruleSpecialHardlinks(c)
 		},
 		Controls: []Control{
+			{Name: "foreign-xattrs-kept-on-error-free-set", File: "internal/fs/node_xattr.go",
+				Old: "	// remove unexpected xattrs\n	xattrs, err := listxattr(path)\n	if err != nil {\n		return err\n	}", New: "	if len(expectedAttrs) == len(node.ExtendedAttributes) && len(expectedAttrs) > 0 {\n		return nil\n	}\n	// remove unexpected xattrs\n	xattrs, err := listxattr(path)\n	if err != nil {\n		return err\n	}", Rule: "xattrs-exact"},
 			{Name: "mode-set-before-ownership", File: "internal/fs/node.go",
 				Old: "	if err := lchown(path, node, ownershipByName); err != nil {\n		firsterr = errors.WithStack(err)\n	}\n\n	if err := nodeRestoreExtendedAttributes", New: "	if node.Type != data.NodeTypeSymlink {\n		_ = chmod(path, node.Mode)\n	}\n	if err := lchown(path, node, ownershipByName); err != nil {\n		firsterr = errors.WithStack(err)\n	}\n\n	if err := nodeRestoreExtendedAttributes", Rule: "metadata-order"},
 			{Name: "fifo-not-recreated", File: "internal/fs/node.go",
